@@ -16,7 +16,7 @@ import (
 )
 
 // PaintNames must be the list of spec/GState.tla (frame codes are 1-based indices into it).
-var PaintNames = []string{"black", "red", "redh", "dred", "blue", "blueh", "green", "grey", "ggrey"}
+var PaintNames = []string{"black", "red", "redh", "dred", "blue", "blueh", "green", "grey", "ggrey", "tbrown"}
 
 const FreeCode = 99
 
@@ -188,15 +188,25 @@ func pixelOK(h *Header, code int, got [4]uint8, space int) bool {
 		return got == [4]uint8{}
 	}
 	pm := h.Paints[PaintNames[code-1]].Pm
-	if space == 0 {
+	if space == 0 && pm[3] == 255 {
 		return got == [4]uint8{uint8(pm[0]), uint8(pm[1]), uint8(pm[2]), uint8(pm[3])}
 	}
-	if got[3] != 255 {
+	// a translucent paint alone on a transparent background keeps its premultiplied colour in every colour space (ToLinear then
+	// FromLinear on a single layer): +-1 in linear space, +-3 through the 8-bit linear intermediate of sRGB / gamma; alpha exact +-1
+	tol := 3
+	if space == 0 {
+		tol = 1
+	}
+	if pm[3] == 255 && got[3] != 255 {
 		return false
 	}
-	for i := 0; i < 3; i++ {
+	for i := 0; i < 4; i++ {
 		d := int(got[i]) - pm[i]
-		if d < -3 || d > 3 {
+		t := tol
+		if i == 3 {
+			t = 1
+		}
+		if d < -t || d > t {
 			return false
 		}
 	}
